@@ -33,8 +33,6 @@ theorem tb_closed_flatMap {α : Type} (f : α → List Seg) (g : α → Ln) :
 theorem tb_splitLines_flatMap {α : Type} (f : α → List Seg) (g : α → Ln) (ls : List α)
     (h : ∀ a ∈ ls, f a = g a ++ [nl] ∧ NlFree (g a)) : splitLines (ls.flatMap f) = ls.map g := by
   have h1 : ls.flatMap f = (ls.map g).flatMap (fun l => l ++ [nl]) := by
-    clear h
-    rename_i h
     induction ls with
     | nil => rfl
     | cons a rest ih =>
